@@ -73,7 +73,10 @@ func (cs *ChainService) VerifStop() {
 	defer func() { recover() }()
 	cs.chainManager.Stop()
 	cs.chainWorker.Stop()
-	cs.validator.Stop()
+	// the signature verifier is deliberately not stopped: Stop() closes its
+	// channels, and a verification that is still in flight for a block that
+	// failed early would panic with "send on closed channel" (one parked
+	// worker goroutine per stopped node is leaked instead).
 }
 
 // VerifReorgMarker reports whether a reorg marker is present in the chain DB.
